@@ -118,23 +118,36 @@ func (k *ck) prepare(want byte, contentDefect func([]byte) string) (content []by
 	return
 }
 
+// class names are interned: the enumerations evaluate billions of cases
+var classCache = map[[3]string]string{}
+
+func className(typ, what, detail string) string {
+	key := [3]string{typ, what, detail}
+	if c, ok := classCache[key]; ok {
+		return c
+	}
+	c := typ + ":" + what + detail
+	classCache[key] = c
+	return c
+}
+
 func (k *ck) finish(near bool) {
 	r := k.r
 	switch {
 	case k.defect == "" && k.rejected == 0:
-		r.Class(k.typ + ":DER:accepted-by-all")
+		r.Class(className(k.typ, "DER:accepted-by-all", ""))
 	case k.defect == "" && k.accepted > 0:
-		r.Class(k.typ + ":DER:accepted-by-some(range)")
+		r.Class(className(k.typ, "DER:accepted-by-some(range)", ""))
 	case k.defect == "":
-		r.Class(k.typ + ":DER:rejected-by-all(range)")
+		r.Class(className(k.typ, "DER:rejected-by-all(range)", ""))
 	default:
-		r.Class(k.typ + ":not-DER:" + k.defect)
+		r.Class(className(k.typ, "not-DER:", k.defect))
 	}
 	if k.accepted > 0 || near {
 		r.NonTrivial()
 	}
 	if near {
-		r.Class(k.typ + ":one-defect-from-DER")
+		r.Class(className(k.typ, "one-defect-from-DER", ""))
 	}
 }
 
@@ -202,7 +215,7 @@ func checkInt(k *ck) {
 		var v *big.Int
 		asn1Dec(k, "Unmarshal(**big.Int)", in, "", &v)
 	}
-	if k.defect != "wrong-identifier" {
+	if len(in) > 0 && in[0] == 0x02 {
 		var v interface{}
 		rest, err := asn1.Unmarshal(in, &v)
 		if err != nil {
@@ -212,7 +225,7 @@ func checkInt(k *ck) {
 			k.verdict("asn1", "Unmarshal(*interface{})", len(in)-len(rest), re, err)
 		}
 	}
-	if k.defect != "wrong-identifier" && len(in) > 0 {
+	if len(in) > 0 && in[0] == 0x02 { // same content under the ENUMERATED and [0] IMPLICIT identifiers
 		inE := withTag(in, 0x0a)
 		var v asn1.Enumerated
 		asn1Dec(k, "Unmarshal(*Enumerated)", inE, "", &v)
@@ -296,7 +309,7 @@ func checkOID(k *ck) {
 	in := k.in
 	var v asn1.ObjectIdentifier
 	asn1Dec(k, "Unmarshal(*ObjectIdentifier)", in, "", &v)
-	if k.defect != "wrong-identifier" {
+	if len(in) > 0 && in[0] == 0x06 {
 		var a interface{}
 		rest, err := asn1.Unmarshal(in, &a)
 		if err != nil {
@@ -353,7 +366,7 @@ func checkBits(k *ck) {
 	in := k.in
 	var v asn1.BitString
 	asn1Dec(k, "Unmarshal(*BitString)", in, "", &v)
-	if k.defect != "wrong-identifier" {
+	if len(in) > 0 && in[0] == 0x03 {
 		var a interface{}
 		rest, err := asn1.Unmarshal(in, &a)
 		if err != nil {
